@@ -105,6 +105,56 @@ def share(rng, doc):
     return d, shared
 
 
+def epochs_omitted_family(rng):
+    """(explicit, spelt) pairs in which several demes omit `epochs` altogether and take their single epoch from the
+    top-level epoch defaults, from their own deme-level epoch defaults, or from both (the deme-level ones winning
+    field by field) -- with effective defaults that differ from deme to deme, in every order of the demes."""
+    n = rng.randint(2, 5)
+    names = ["a", "b", "c", "d", "e"][:n]
+    T = rng.choice([100, 250.0, 1000])
+    top = dict(start_size=rng.choice([100, 150.5, 3000]), selfing_rate=rng.choice([0, 0.25]))
+    if rng.random() < 0.5:
+        top["cloning_rate"] = rng.choice([0.1, 0.5])
+    exp = dict(description="", time_units="generations", generation_time=1, doi=[], metadata={}, demes=[], migrations=[], pulses=[])
+    spelt = dict(time_units="generations", defaults=dict(epoch=dict(top)), demes=[])
+    for i, nm in enumerate(names):
+        own = {}
+        mode = rng.choice(["top", "own", "both", "both"]) if i else rng.choice(["top", "both"])
+        if mode in ("own", "both"):
+            own["start_size"] = rng.choice([200, 77.5, 12345]) + i
+            if rng.random() < 0.5:
+                own["selfing_rate"] = rng.choice([0.5, 0.125])
+        if mode == "own" or rng.random() < 0.3:
+            own["end_time"] = 0 if i else rng.choice([0, 10])
+        if i and rng.random() < 0.4:
+            own["end_size"] = own.get("start_size", top["start_size"]) * rng.choice([2, 0.5])
+        eff = dict(top)
+        eff.update(own)
+        start = float("inf") if i == 0 else T
+        ss = eff["start_size"]
+        es = eff.get("end_size", ss)
+        exp["demes"].append(dict(name=nm, description="", start_time=start, ancestors=[] if i == 0 else [names[0]],
+                                 proportions=[] if i == 0 else [1.0],
+                                 epochs=[dict(end_time=eff.get("end_time", 0), start_size=ss, end_size=es,
+                                              size_function="constant" if ss == es else "exponential",
+                                              selfing_rate=eff.get("selfing_rate", 0), cloning_rate=eff.get("cloning_rate", 0))]))
+        dm = dict(name=nm)
+        if i:
+            dm.update(start_time=T, ancestors=[names[0]])
+        if own:
+            dm["defaults"] = dict(epoch=own)
+        spelt["demes"].append(dm)
+    # the root must outlive its descendants' start
+    if exp["demes"][0]["epochs"][0]["end_time"] >= T:
+        return None
+    if rng.random() < 0.5:
+        k = rng.randrange(1, n)
+        perm = [0] + rng.sample(range(1, n), n - 1)
+        exp["demes"] = [exp["demes"][j] for j in perm]
+        spelt["demes"] = [spelt["demes"][j] for j in perm]
+    return exp, spelt
+
+
 def run(chk):
     import demes
     nobl, ndis, axioms = common.proof_stage(chk)
@@ -194,6 +244,40 @@ def run(chk):
                                       "a document whose repeated sub-objects are shared by reference (%s) resolves differently"
                                       % how, dict(rep, how=how, yaml=to_yaml(sv)[:2000], got=rs[1].asdict(), want=got))
         chk.sample(dict(kind=variants[2][0], document=variants[2][1]), limit=3)
+    # demes that omit `epochs` altogether, with effective epoch defaults that differ from deme to deme
+    for _ in range(40 if chk.tier == "quick" else 300):
+        pair = epochs_omitted_family(rng)
+        if pair is None:
+            continue
+        exp, v = pair
+        rexp = resolve(exp)
+        if rexp[0] != "ok":
+            continue
+        want = rexp[1].asdict()
+        chk.case(v, nontrivial=True)
+        chk.count("variant_epochs_omitted")
+        rep = dict(op="fromdict", document=v, kind="epochs-omitted", reference=exp)
+        outs = {"dict": lambda: resolve(copy.deepcopy(v)), "yaml": lambda: ("ok", demes.loads(to_yaml(v))),
+                "builder": lambda: ("ok", via_builder(copy.deepcopy(v)))}
+        for rk, f in outs.items():
+            try:
+                r = f()
+            except Exception as e:
+                r = ("err", type(e).__name__)
+            if r[0] != "ok":
+                chk.violation("resolve:equivalent-spelling-rejected:epochs-omitted",
+                              "a document whose demes omit `epochs` and rely on epoch defaults is rejected with %s (route %s)"
+                              % (r[1], rk), rep)
+            elif not wire.deep_eq(r[1].asdict(), want):
+                chk.violation("resolve:equivalent-spelling-differs:epochs-omitted",
+                              "demes that omit `epochs` do not each get their own effective epoch defaults (route %s)" % rk,
+                              dict(rep, route=rk, got=r[1].asdict(), want=want))
+        r = resolve(copy.deepcopy(v))
+        mr = drv.call("fromdict", v)
+        if r[0] == "ok" and not (mr[0] == "ok" and graphs.payload_eq(r[1], mr[1])):
+            chk.disagreements += 1
+            chk.unproven("resolve:correspondence", "implementation and proved model resolve differently",
+                         dict(rep, impl=gen.graph_payload(r[1]), model=mr))
     drv.close()
     return chk.finish("proof", nobl, ndis, axioms, RULE,
                       explanation="Model/Resolve.v (extracted) compared exactly with Graph.fromdict on every spelling; "
